@@ -7,6 +7,8 @@ import FGVerif.Model.C20
   * `C20.complete_spec`      the model's output satisfies the declarative specification `Spec`
   * `C20.specCheck_sound`    the executable checker the harness runs on *implementation* outputs
                              implies `Spec`
+  * `C20.specCheck_iff`      … and is implied by it (the checker is exactly the statement)
+  * `C20.complete_increasing` stronger fact about the model only: new numbers increase in node order
   * corollaries `complete_length`, `complete_preserves`, `complete_fresh`, `complete_distinct`,
     `complete_least`, and for `initialize_aam`: `initialize_ok`, `initialize_refuses`,
     `initialize_keeps_existing`.
@@ -14,12 +16,6 @@ import FGVerif.Model.C20
 namespace C20
 
 /-! ### the declarative specification -/
-
-/-- the numbers given to unmapped nodes, in node order -/
-def news : List (Option Int) → List Int → List Int
-  | none :: ns, b :: out => b :: news ns out
-  | some _ :: ns, _ :: out => news ns out
-  | _, _ => []
 
 /-- existing numbers are kept, position by position -/
 def Preserved : List (Option Int) → List Int → Prop
@@ -29,12 +25,13 @@ def Preserved : List (Option Int) → List Int → Prop
   | _, _ => False
 
 /-- "every node carries a number afterwards, existing numbers are unchanged, the new numbers are
-    pairwise distinct (strictly increasing in node order), distinct from all existing ones, and
-    are the smallest unused integers from `lo`". -/
+    pairwise distinct, distinct from all existing ones, and are the smallest unused integers from `lo`".
+    The statement does not say which unmapped node gets which of the new numbers; that the model (like the code)
+    hands them out in node order is the separate theorem `complete_increasing` (review 3, M6). -/
 structure Spec (lo : Int) (nodes : List (Option Int)) (out : List Int) : Prop where
   length : out.length = nodes.length
   preserved : Preserved nodes out
-  increasing : (news nodes out).Pairwise (· < ·)
+  distinct : (news nodes out).Nodup
   fresh : ∀ b ∈ news nodes out, lo ≤ b ∧ b ∉ existing nodes
   least : ∀ b ∈ news nodes out, ∀ k, lo ≤ k → k < b → k ∈ existing nodes ∨ k ∈ news nodes out
 
@@ -152,10 +149,10 @@ theorem loop_specLoop (lo : Int) : ∀ (nodes : List (Option Int)) (used : List 
           · exact Or.inl (hinv k hk1 h)
           · exact Or.inl (hs.2.2 k (by omega) hk2)
 
-/-- the model passes the executable check that is applied to implementation outputs -/
-theorem complete_specCheck (o : Offset) (nodes : List (Option Int)) :
-    specCheck o nodes (completeAam o nodes) = true := by
-  unfold specCheck completeAam
+/-- the model passes the ORDERED executable check (stronger than the statement) -/
+theorem complete_specCheckOrdered (o : Offset) (nodes : List (Option Int)) :
+    specCheckOrdered o nodes (completeAam o nodes) = true := by
+  unfold specCheckOrdered completeAam
   exact loop_specLoop _ nodes _ _ (Int.le_refl _) (by intro k h1 h2; omega)
 
 /-! ### the executable specification implies the declarative one -/
@@ -218,18 +215,85 @@ theorem specLoop_sound (lo : Int) : ∀ (nodes : List (Option Int)) (out used : 
               · exact Or.inr (Or.inl (by simpa using h))
             · exact Or.inr (Or.inr h)
 
+/-- the ordered check implies the declarative specification and, on top of it, that the new numbers increase
+    in node order -/
+theorem specCheckOrdered_sound (o : Offset) (nodes : List (Option Int)) (out : List Int)
+    (h : specCheckOrdered o nodes out = true) :
+    Spec (start o (existing nodes)) nodes out ∧ (news nodes out).Pairwise (· < ·) := by
+  obtain ⟨h1, h2, h3, h4, h5⟩ := specLoop_sound _ nodes out _ h
+  exact ⟨⟨h1, h2, h3.imp (fun h => Int.ne_of_lt h), h4, h5⟩, h3⟩
+
+/-! ### the checker applied to implementation outputs is exactly the statement -/
+
+theorem preservedB_iff : ∀ (nodes : List (Option Int)) (out : List Int),
+    preservedB nodes out = true ↔ Preserved nodes out
+  | [], [] => by simp [preservedB, Preserved]
+  | [], _ :: _ => by simp [preservedB, Preserved]
+  | some _ :: _, [] => by simp [preservedB, Preserved]
+  | none :: _, [] => by simp [preservedB, Preserved]
+  | some a :: ns, b :: out => by simp [preservedB, Preserved, preservedB_iff ns out]
+  | none :: ns, b :: out => by simp [preservedB, Preserved, preservedB_iff ns out]
+
+theorem preserved_length : ∀ (nodes : List (Option Int)) (out : List Int),
+    Preserved nodes out → out.length = nodes.length
+  | [], [], _ => rfl
+  | [], _ :: _, h => by simp [Preserved] at h
+  | some _ :: _, [], h => by simp [Preserved] at h
+  | none :: _, [], h => by simp [Preserved] at h
+  | some a :: ns, b :: out, h => by
+    simp only [Preserved] at h
+    simp [preserved_length ns out h.2]
+  | none :: ns, b :: out, h => by
+    simp only [Preserved] at h
+    simp [preserved_length ns out h]
+
+theorem gapFree_iff (ex nw : List Int) (lo b : Int) :
+    gapFree ex nw lo b = true ↔ ∀ k, lo ≤ k → k < b → k ∈ ex ∨ k ∈ nw := by
+  unfold gapFree
+  simp only [List.all_eq_true, List.mem_range, Bool.or_eq_true, List.contains_eq_mem, decide_eq_true_eq]
+  constructor
+  · intro h k hk1 hk2
+    have := h (k - lo).toNat (by omega)
+    have e : lo + ((k - lo).toNat : Int) = k := by omega
+    rw [e] at this
+    exact this
+  · intro h d hd
+    exact h _ (by omega) (by omega)
+
+/-- **the executable checker is the declarative specification** (sound AND complete: it neither accepts an output
+    that violates the statement nor rejects one that meets it) -/
+theorem specCheck_iff (o : Offset) (nodes : List (Option Int)) (out : List Int) :
+    specCheck o nodes out = true ↔ Spec (start o (existing nodes)) nodes out := by
+  unfold specCheck
+  simp only [Bool.and_eq_true, decide_eq_true_eq, List.all_eq_true, Bool.not_eq_true',
+    List.contains_eq_mem, decide_eq_false_iff_not, preservedB_iff, gapFree_iff]
+  constructor
+  · rintro ⟨⟨⟨h1, h2⟩, h3⟩, h4⟩
+    exact ⟨preserved_length _ _ h1, h1, h2, h3, h4⟩
+  · intro h
+    exact ⟨⟨⟨h.preserved, h.distinct⟩, h.fresh⟩, h.least⟩
+
 /-- **soundness of the executable checker**: whatever output (in particular the
     implementation's) passes `specCheck` satisfies the declarative specification. -/
 theorem specCheck_sound (o : Offset) (nodes : List (Option Int)) (out : List Int)
-    (h : specCheck o nodes out = true) : Spec (start o (existing nodes)) nodes out := by
-  obtain ⟨h1, h2, h3, h4, h5⟩ := specLoop_sound _ nodes out _ h
-  exact ⟨h1, h2, h3, h4, h5⟩
+    (h : specCheck o nodes out = true) : Spec (start o (existing nodes)) nodes out :=
+  (specCheck_iff o nodes out).1 h
 
 /-- **C20 main theorem**: for every node list, partial map and offset, `complete_aam` (model)
     meets the specification. -/
 theorem complete_spec (o : Offset) (nodes : List (Option Int)) :
     Spec (start o (existing nodes)) nodes (completeAam o nodes) :=
-  specCheck_sound o nodes _ (complete_specCheck o nodes)
+  (specCheckOrdered_sound o nodes _ (complete_specCheckOrdered o nodes)).1
+
+/-- the model passes the executable check that is applied to implementation outputs -/
+theorem complete_specCheck (o : Offset) (nodes : List (Option Int)) :
+    specCheck o nodes (completeAam o nodes) = true :=
+  (specCheck_iff o nodes _).2 (complete_spec o nodes)
+
+/-- the stronger fact about the MODEL, not demanded by the statement: the new numbers increase in node order -/
+theorem complete_increasing (o : Offset) (nodes : List (Option Int)) :
+    (news nodes (completeAam o nodes)).Pairwise (· < ·) :=
+  (specCheckOrdered_sound o nodes _ (complete_specCheckOrdered o nodes)).2
 
 /-! ### named corollaries -/
 
@@ -244,9 +308,7 @@ theorem complete_fresh (o : Offset) (nodes : List (Option Int)) :
   fun b hb => ((complete_spec o nodes).fresh b hb).2
 
 theorem complete_distinct (o : Offset) (nodes : List (Option Int)) :
-    (news nodes (completeAam o nodes)).Nodup := by
-  have := (complete_spec o nodes).increasing
-  exact this.imp (fun h => Int.ne_of_lt h)
+    (news nodes (completeAam o nodes)).Nodup := (complete_spec o nodes).distinct
 
 theorem complete_least (o : Offset) (nodes : List (Option Int)) :
     ∀ b ∈ news nodes (completeAam o nodes), ∀ k, start o (existing nodes) ≤ k → k < b →
@@ -349,5 +411,13 @@ example : completeAam .min [none, some 5, none, some 7, none] = [6, 5, 8, 7, 9] 
 example : news [none, some 5, none, some 7, none] [6, 5, 8, 7, 9] = [6, 8, 9] := by decide
 example : specCheck (.int 3) [some 3, none, some 3] [3, 4, 3] = true := by decide
 example : specCheck (.int 3) [some 3, none, some 3] [3, 5, 3] = false := by decide
+/-- the same set of new numbers handed out in another node order meets the statement (and fails the ordered check) -/
+example : specCheck .none [none, some 1, none, some 3, none] [5, 1, 4, 3, 2] = true := by decide
+example : specCheckOrdered .none [none, some 1, none, some 3, none] [5, 1, 4, 3, 2] = false := by decide
+/-- a skipped unused number, a repeated number, a number below the start, a missing node: all rejected -/
+example : specCheck .none [none, some 1, none] [2, 1, 4] = false := by decide
+example : specCheck .none [none, some 1, none] [2, 1, 2] = false := by decide
+example : specCheck (.int 3) [none, none] [2, 3] = false := by decide
+example : specCheck .none [none, none] [1] = false := by decide
 
 end C20
